@@ -37,7 +37,7 @@ Other(d) == IF d = "c" THEN "s" ELSE "c"
 
 NoPend == [c \in ConnChans |-> ""]
 NoAsm == [c \in ConnChans |-> Idle]
-ConnInit == [phase |-> "init", fmax |-> 0, cmax |-> 0, ofm |-> 0, ocm |-> 0, closer |-> "",
+ConnInit == [phase |-> "init", tuned |-> FALSE, fmax |-> 0, cmax |-> 0, ofm |-> 0, ocm |-> 0, closer |-> "",
              chan |-> [c \in ConnChans |-> "closed"], ccloser |-> [c \in ConnChans |-> ""],
              pend |-> [d \in Dirs |-> NoPend], asm |-> [d \in Dirs |-> NoAsm]]
 
@@ -51,9 +51,9 @@ ClientOnly == {"Basic.Publish", "Basic.Reject", "Basic.RecoverAsync", "Basic.Rec
                "Tx.Select", "Tx.Commit", "Tx.Rollback", "Connection.UpdateSecret"}
 ServerOnly == {"Basic.Deliver", "Basic.Return", "Connection.Blocked", "Connection.Unblocked"}
 MayOriginate(d, n) == (n \in ClientOnly => d = "c") /\ (n \in ServerOnly => d = "s")
-ClassOf(n) == MethodByName(n).cid
+IsSomeReply(n) == \E m \in MethodNames : n \in Resp(m)
 
-SizeFits(cs, e) == LET lim == IF cs.phase \in PreTune THEN FrameMin ELSE cs.fmax IN lim = 0 \/ e.wire <= lim
+SizeFits(cs, e) == LET lim == IF cs.tuned THEN cs.fmax ELSE FrameMin IN lim = 0 \/ e.wire <= lim
 
 \* TuneOk answers the offer: a limit of 0 in the offer means "no limit", otherwise the answer is a limit not above it
 Within(offer, answer) == offer = 0 \/ (answer # 0 /\ answer <= offer)
@@ -108,7 +108,7 @@ LegalN(cs, e) ==
                             /\ mine.mode = "idle"    \* no method inside the sender's own content sequence
                             /\ IF theirs # "" /\ IsReplyTo(n, theirs) THEN TRUE
                                ELSE /\ MayOriginate(d, n)
-                                    /\ \A m \in Requests0 : ~(n \in Resp(m) /\ n \notin {"Basic.Ack", "Basic.Nack"}) \/ Waits(n)
+                                    /\ ~IsSomeReply(n)            \* a reply never travels unrequested
                                     /\ (Waits(n) => cs.pend[d][c] = "")
          [] e.kind \in {"header", "body"} ->
               /\ cs.chan[c] = "open" \/ (cs.chan[c] = "closing" /\ d # cs.ccloser[c])
@@ -127,7 +127,7 @@ Step0(cs, e) ==
       [] n = "Connection.Secure" -> [cs EXCEPT !.phase = "secure"]
       [] n = "Connection.SecureOk" -> [cs EXCEPT !.phase = "startok"]
       [] n = "Connection.Tune" -> [cs EXCEPT !.phase = "tune", !.ofm = e.fm, !.ocm = e.cm]
-      [] n = "Connection.TuneOk" -> [cs EXCEPT !.phase = "tuneok", !.fmax = e.fm, !.cmax = e.cm]
+      [] n = "Connection.TuneOk" -> [cs EXCEPT !.phase = "tuneok", !.tuned = TRUE, !.fmax = e.fm, !.cmax = e.cm]
       [] n = "Connection.Open" -> [cs EXCEPT !.phase = "opening"]
       [] n = "Connection.OpenOk" -> [cs EXCEPT !.phase = "open"]
       [] n = "Connection.Close" -> IF cs.phase = "closing" THEN cs ELSE [cs EXCEPT !.phase = "closing", !.closer = e.dir]
